@@ -90,13 +90,31 @@ fn z(v: u64) -> Zatoshis {
 }
 /// prep(0) <- transfer(1) when `dep`, else two independent transfers.
 fn mk_state(status: MigrationStatus, dep: bool, r0: &Row, r1: &Row) -> MigrationState {
+    mk_state3(status, if dep { 1 } else { 0 }, r0, r1)
+}
+/// dep: 0 = two independent transfers, 1 = prep(0) <- transfer(1), 2 = transfer(1) depends on an id
+/// that no row carries (a dangling edge: such a dependency is by definition not mined).
+fn mk_state3(status: MigrationStatus, dep: u8, r0: &Row, r1: &Row) -> MigrationState {
+    let dangling = dep == 2;
+    let dep = dep == 1;
     let k0 = if dep {
         MigrationTxKind::Preparation { layer: 0, index: 0 }
     } else {
         MigrationTxKind::Transfer { crossing: 1 }
     };
     let t0 = mk_tx(0, k0, Vec::new(), r0);
-    let t1 = mk_tx(1, MigrationTxKind::Transfer { crossing: 0 }, if dep { vec![id(0)] } else { Vec::new() }, r1);
+    let t1 = mk_tx(
+        1,
+        MigrationTxKind::Transfer { crossing: 0 },
+        if dep {
+            vec![id(0)]
+        } else if dangling {
+            vec![id(9)]
+        } else {
+            Vec::new()
+        },
+        r1,
+    );
     let den = DenominationPlan::from_stored_parts(
         vec![z(20_000_000), z(10_000_000)],
         z(15_000),
@@ -141,10 +159,12 @@ macro_rules! broadcast_guard {
         #[kani::unwind(5)]
         fn $name() {
             let (r0, r1) = (any_row(), any_row());
-            let dep: bool = kani::any();
+            let dep3: u8 = kani::any();
+            kani::assume(dep3 < 3);
+            let dep = dep3 == 1;
             let status = any_status();
             let (scanned, est): (u32, u32) = (kani::any(), kani::any());
-            let st = mk_state(status, dep, &r0, &r1);
+            let st = mk_state3(status, dep3, &r0, &r1);
             let targets = DuenessTargets::new(bh(scanned), bh(est));
             let eff = scanned.max(est);
             assert!(u32::from(targets.effective()) == eff && u32::from(targets.scanned()) == scanned);
@@ -160,8 +180,9 @@ macro_rules! broadcast_guard {
                 r.st == 2 && deps_mined && r.sched <= eff && !expired_at(r, eff) && !dead && r.fail.is_none()
             };
             let ok0 = ok_row(&r0, true, $d0);
-            let ok1 = ok_row(&r1, !dep || r0.st == 4, $d1);
+            let ok1 = ok_row(&r1, dep3 == 0 || (dep && r0.st == 4), $d1);
             match got {
+
                 Some(g) => {
                     assert!(g <= 1);
                     assert!(if g == 0 { ok0 } else { ok1 });
@@ -171,6 +192,7 @@ macro_rules! broadcast_guard {
                     }
                     kani::cover!(g == 1 && dep);
                     kani::cover!(g == 0 && ok1);
+                    kani::cover!(g == 0 && dep3 == 2 && r1.st == 2);
                 }
                 None => {
                     assert!(!ok0 && !ok1); // an eligible row is never withheld
@@ -183,7 +205,7 @@ macro_rules! broadcast_guard {
     };
 }
 
-//@ {"p":"C18","tier":"quick","clause":"next_broadcastable from an arbitrary well-formed 2-transaction state, empty dead set: the offered id is Proved, every dependency is Mined, its scheduled height is due at the effective target, it is not expired at the effective target, and it carries no broadcast-failure report; among eligible rows the earliest scheduled (ties by id) is offered; an eligible row is never withheld","bounds":"2 transactions (prep->transfer or two transfers, symbolic), every lifecycle state, all heights/expiries/marks/reports symbolic in u32, all 7 statuses, scanned and estimated targets symbolic","covers":3,"t":1200,"unwindset":{"memcmp.0":34}}
+//@ {"p":"C18","tier":"quick","clause":"next_broadcastable from an arbitrary well-formed 2-transaction state, empty dead set: the offered id is Proved, every dependency is Mined, its scheduled height is due at the effective target, it is not expired at the effective target, and it carries no broadcast-failure report; among eligible rows the earliest scheduled (ties by id) is offered; an eligible row is never withheld","bounds":"2 transactions (two transfers, prep->transfer, or a transfer with a dangling dependency id; symbolic), every lifecycle state, all heights/expiries/marks/reports symbolic in u32, all 7 statuses, scanned and estimated targets symbolic","covers":4,"t":1200,"unwindset":{"memcmp.0":34}}
 broadcast_guard!(c18_broadcast_guard_none, false, false);
 //@ {"p":"C18","tier":"quick","clause":"same with dead set {tx 1}: a dead row is never offered","bounds":"as above","covers":1,"t":1200,"unwindset":{"memcmp.0":34}}
 broadcast_guard!(c18_broadcast_guard_d1, false, true);
